@@ -269,7 +269,6 @@ type dTx struct {
 }
 
 const (
-	causeRODDL   = "cause=ddl-in-read-only-tx-corrupts-catalog-cache"
 	causeOwnDDL  = "cause=own-ddl-object-not-queryable-in-same-tx"
 	causeDropped = "cause=committed-drop-table-breaks-reads-of-older-open-tx"
 )
@@ -536,7 +535,8 @@ func seedDDLPrograms() [][]DEv {
 		// warm cache: rolled-back rename / add column / drop table
 		{cr(0, "t1", true), {S: 0, K: DInsert, T: "t1", ID: 1}, {S: 0, K: DWarm, T: "t1"}, k(0, DBegin), {S: 0, K: DRenameT, T: "t1", N: "t2"},
 			{S: 0, K: DAddCol, T: "t2", C: "b"}, k(1, DProbe), k(0, DRollback), k(0, DProbe), k(1, DBegin), {S: 1, K: DDrop, T: "t1"}, k(1, DRollback), k(0, DProbe)},
-		// DDL attempted in a read-only transaction (which shares the cached catalog)
+		// DDL attempted in a read-only transaction, which shares the cached catalog (fixed by 82bd2bd:
+		// refused before the catalog is touched; a recurrence is a violation)
 		{cr(0, "t1", true), {S: 0, K: DWarm, T: "t1"}, k(0, DBeginRO), {S: 0, K: DRenameT, T: "t1", N: "t2"}, k(0, DProbe)},
 		{cr(0, "t1", true), {S: 0, K: DWarm, T: "t1"}, k(0, DBeginRO), {S: 0, K: DDropCk, T: "t1"}, k(0, DProbe)},
 		// DROP TABLE committed while an older transaction that still has the table is open
@@ -765,15 +765,6 @@ func runDDLProgram(evs []DEv) ddlResult {
 						res.features["stmt-failed-after-ddl"] = true
 					}
 					endTx(s)
-				}
-				// known deviation: a read-only transaction shares the engine's cached catalog
-				// object; a DDL statement changes it in memory before its write is refused.
-				// Probe at once, attribute what differs to it, and end this history.
-				if t != nil && t.ro && isCatalogStmt(e.K) {
-					res.features["ro-ddl"] = true
-					cause = causeRODDL
-					probe(i)
-					res.features["stop"] = true
 				}
 				continue
 			}
